@@ -875,6 +875,10 @@ var gmBadKinds = []gmBad{
 	{"default-missing", 0}, {"default-removed", 0}, {"existing-empty", 0}, {"new-empty", 0},
 	{"dial-fail", 1}, {"dial-fail", 2}, {"dial-fail", 3},
 	{"valid", 0},
+	// a MultiEndpoint whose list names one endpoint twice: whether such an update
+	// is accepted or rejected is not specified, but it must be one or the other
+	// completely (accepted: RPCs work and go there; rejected: nothing changed)
+	{"dup-list", 0},
 }
 
 func gmMeo(l ...string) *multiendpoint.MultiEndpointOptions {
@@ -916,7 +920,7 @@ func (w *gmWalk) mutate16(b gmBad) *GCPMultiEndpointOptions {
 			o.MultiEndpoints[n] = gmMeo(perm(1 + w.rng.Intn(3))...)
 		}
 	}
-	if b.kind != "valid" && b.kind != "default-missing" && b.kind != "default-removed" && len(names) > 1 && w.rng.Intn(2) == 0 {
+	if b.kind != "valid" && b.kind != "dup-list" && b.kind != "default-missing" && b.kind != "default-removed" && len(names) > 1 && w.rng.Intn(2) == 0 {
 		// an invalid update that also names another (existing) default: after the
 		// rejection no-name / unknown-name RPCs must still use the old default
 		for _, n := range names {
@@ -926,7 +930,7 @@ func (w *gmWalk) mutate16(b gmBad) *GCPMultiEndpointOptions {
 			}
 		}
 	}
-	if b.kind != "valid" && b.kind != "default-removed" && len(names) > 1 && w.rng.Intn(2) == 0 {
+	if b.kind != "valid" && b.kind != "dup-list" && b.kind != "default-removed" && len(names) > 1 && w.rng.Intn(2) == 0 {
 		// an invalid update that also drops a MultiEndpoint: after the rejection
 		// RPCs naming it (or using it as the default) are routed as before
 		drop := names[w.rng.Intn(len(names))]
@@ -973,6 +977,9 @@ func (w *gmWalk) mutate16(b gmBad) *GCPMultiEndpointOptions {
 			return nil
 		}
 		o.MultiEndpoints["fresh"] = gmMeo(fresh...)
+	case "dup-list":
+		e := gmEPNames[w.rng.Intn(len(gmEPNames))]
+		o.MultiEndpoints[names[w.rng.Intn(len(names))]] = gmMeo(e, e)
 	case "valid":
 		if w.rng.Intn(2) == 0 {
 			o.MultiEndpoints["extra"] = gmMeo(perm(2)...)
@@ -1209,7 +1216,7 @@ func gmRunC16(rng *vRand, idx int64) *gmWalk {
 		w.dialMu.Unlock()
 		w.say("  -> err=%v (dials in this call: %v)", uerr, dialled)
 		w.hit("C16.update:" + b.kind)
-		if b.kind == "valid" {
+		if b.kind == "valid" || (b.kind == "dup-list" && uerr == nil) {
 			if uerr != nil {
 				w.fail("C15.update-error", "", "valid update rejected: %v", uerr)
 				break
